@@ -109,6 +109,7 @@ func runC07(c *Ctx) {
 		"C07.2 the node-row deleter looks up and deletes the node's services, checks and coordinates on every successful path; the service-row deleter does so for the service's checks and reaches the mesh-topology, kind-service-names, gateway and virtual-IP cleanups",
 		"C07.3 on every successful local-peer path to a services insert the service name is recorded in kind-service-names; connect proxies / native services pass through the mesh-topology maintainer",
 		"C07.3.kind-cleanup every local connect-proxy / connect-native deregistration looks up the remaining connect instances of its connect name and removes the connect-enabled kind name when none remain",
+		"C07.7 the key under which a proxy instance is recorded in a mesh-topology row's Refs is built from the node name and the service ID",
 		"C07.4 the only writer of table usage is reached solely from txn.Commit",
 		"C07.5 virtual-IP bookkeeping is paired: a freed address is removed from the free list on the path that assigns it, the counter is re-inserted when it is advanced, and releasing an assignment puts the address on the free list",
 		"C07.6 read-modify-write of an aggregated row inserts an object derived from the row it read (mesh-topology Refs)",
@@ -584,6 +585,63 @@ func runC07(c *Ctx) {
 		}
 	}
 	r.Floor("C07.3.kind-cleanup", 1)
+
+	// ---- C07.7: the key under which a proxy instance is recorded in a topology row's Refs names the
+	// instance: it is built from the node name AND the service ID (sidecars share IDs across nodes)
+	nRefs := 0
+	for _, f := range p.SrcFuncs(statePkg) {
+		for _, b := range f.Blocks {
+			for _, in := range b.Instrs {
+				var m, key ssa.Value
+				what := ""
+				switch x := in.(type) {
+				case *ssa.MapUpdate:
+					m, key, what = x.Map, x.Key, "recorded"
+				case *ssa.Call:
+					if bi, ok := x.Call.Value.(*ssa.Builtin); ok && bi.Name() == "delete" {
+						m, key, what = x.Call.Args[0], x.Call.Args[1], "removed"
+					}
+				case *ssa.Lookup:
+					m, key, what = x.X, x.Index, "looked up"
+				}
+				if m == nil || core.AccessOf(m).LastField() != "Refs" {
+					continue
+				}
+				nRefs++
+				hasNode, hasID := false, false
+				core.Leaves(key, core.SliceOpts{ThroughCalls: true, StopAt: func(v ssa.Value) bool {
+					if prm, ok := v.(*ssa.Parameter); ok && strings.Contains(strings.ToLower(prm.Name()), "node") && core.ShortType(prm.Type()) == "string" {
+						hasNode = true
+					}
+					if ld, ok := v.(*ssa.UnOp); ok && ld.Op == token.MUL {
+						switch core.AccessOf(ld).LastField() {
+						case "Node":
+							hasNode = true
+						case "ID", "ServiceID":
+							hasID = true
+						}
+					}
+					if call, ok := v.(*ssa.Call); ok && strings.Contains(core.MethodNameOf(&call.Call), "ServiceID") {
+						hasID = true
+					}
+					return false
+				}})
+				// a key that is the loop variable of a range over Refs itself (copying / iterating the map) names whatever was stored
+				if _, isExtract := key.(*ssa.Extract); isExtract {
+					continue
+				}
+				construct := fmt.Sprintf("%s/Refs %s", core.FuncName(f), what)
+				if hasNode && hasID {
+					r.Hold("C07.7", construct, p.Pos(in.Pos()), "keyed by node name and service ID")
+				} else {
+					r.Violate("C07.7", construct, p.Pos(in.Pos()), fmt.Sprintf("the reference of a proxy instance in a mesh-topology row is %s under a key that does not name the instance (node name: %v, service ID: %v): sidecars with the same ID on different nodes collapse into one reference, so deregistering one of them deletes the upstream/downstream edge the others still declare", what, hasNode, hasID))
+				}
+			}
+		}
+	}
+	if nRefs < 3 {
+		r.MissingInstance("C07.7", "<Refs accesses>", fmt.Sprintf("only %d accesses to Refs found", nRefs))
+	}
 
 	// ---- C07.4 usage
 	commitFn := p.Func(statePkg, "(*txn).Commit")
